@@ -972,6 +972,58 @@ def ts4c(P, C):
     return n
 
 
+def ts4d(P, C):
+    """TS-4d: the premise of TS-4c for values that arrive as std::string: no terminator inside the string."""
+    C.rule("TS-4d", "write_key copies size() characters of the formatted value and a terminator into allocate<char>(size()+1); the stored C string "
+           "has size() characters — what clear() assumes when it releases strlen+1 — only if the value contains no NUL character: a "
+           "throwing guard refuses such a value before anything is allocated or stored", floor=3)
+    from . import vg
+    n = 0
+    for f in sorted(P.functions.values(), key=lambda g: (g.file, g.line, str(g.targs))):
+        if f.unit != "driver" or f.cls != CLS or f.name != "write_key":
+            continue
+        # the std::string that is copied into a char allocation
+        srcs = set()
+        for j, cal in f.calls():
+            if cal and cal["name"] == "copy" and cal["qname"].startswith("std::"):
+                a = f.args(j)
+                if f.render(a[0]).endswith(".begin()"):
+                    for z in f.walk(a[0]):
+                        if f.k(z) == "DeclRefExpr" and f.nodes[z]["decl"].get("kind") == "Var" and "string" in (f.nodes[z]["decl"].get("type", "") + f.nodes[z].get("t", "")):
+                            srcs.add(f.nodes[z]["decl"]["id"])
+        if not srcs:
+            continue
+        pos = f.node_positions()
+        dom = f.dominators()
+        effects = [i for i in f.walk() if i in pos and (member_writes(f, i) or (f.nodes[i].get("callee") or {}).get("name") == "allocate")]
+        ok = False
+        where = f.where()
+        for g in vg.guards_of(f):
+            cond = f.nodes[g["node"]]["cond"]
+            hit = False
+            for y in f.walk(cond):
+                cal = f.nodes[y].get("callee")
+                if cal and cal["name"] in ("find", "find_first_of", "count", "memchr") and \
+                        any(f.nodes[f.strip(a)].get("cv", f.nodes[f.strip(a)].get("v")) == 0 and "char" in (f.nodes[f.strip(a)].get("t") or "char") for a in f.args(y)) and \
+                        any(f.k(z) == "DeclRefExpr" and f.nodes[z]["decl"].get("id") in srcs for z in f.walk(y)):
+                    hit = True
+            if not hit:
+                continue
+            first = core.cond_leaves(f, cond)[1][0]
+            pg = next((pos[x] for x in [first] + list(f.walk(first)) if x in pos), None)
+            if pg is not None and all(pg[0] in dom.get(pos[e][0], ()) for e in effects):
+                ok = True
+                where = f.loc(g["node"])
+        n += 1
+        C.ob("TS-4d", fshort(f), "no-terminator-inside-the-value", ok, where,
+             "a value containing a NUL character is refused before the first allocation" if ok else
+             "nothing refuses a value that contains a NUL character: size()+1 characters are allocated, the stored string ends at the NUL, and "
+             "every later release hands the allocator strlen()+1 — less than it was asked for (the value is also cut short)")
+    if n == 0:
+        raise core.AnalysisBroken("TS-4d: write_key copies no std::string into a character allocation")
+    return n
+
+
 def ts7(P, C, floor=3):
     """TS-7: a member that has been handed back to the allocator is nulled or re-pointed before anything can raise."""
     C.rule("TS-7", "after deallocate(member, ...) the member is assigned (null or its replacement) before the next element that may raise: while "
